@@ -342,3 +342,20 @@ def configs(tier):
 
 
 HARNESSES = {"requests": h_requests, "evaluate_functions": h_evaluate_functions, "fd": h_fd}
+
+
+# ---- extension: sparse linear functions and sparse user Jacobians (harness/C01_sparse.py) -------------------------------------------
+from harness import C01_sparse as _sparse  # noqa: E402
+
+HARNESSES.update(_sparse.HARNESSES)
+_base_configs = configs
+
+
+def configs(tier):  # noqa: F811
+    return _base_configs(tier) + _sparse.configs(tier)
+
+
+META["outside"] = [o for o in META["outside"] if o != "sparse Jacobians"] + _sparse.META["outside"]
+META["stubs"] = META["stubs"] + _sparse.META["stubs"]
+META["assumptions"] = META["assumptions"] + _sparse.META["assumptions"]
+META["bounds"] = {t: META["bounds"][t] + "; " + _sparse.META["bounds"][t] for t in META["bounds"]}
